@@ -272,3 +272,33 @@ def source_hashes(paths):
         if os.path.exists(fp):
             out[p] = hashlib.sha256(open(fp, "rb").read()).hexdigest()[:16]
     return out
+
+
+def correspond(ctx, harness_args, mode, stem, sample_every=997):
+    """Run the harness (implementation answers) and the compiled model on the same queries; diff.
+    Returns dict(rows, ndiff, diffs, kinds, samples, kv, ok)."""
+    rc, out, kv = harness(ctx, list(harness_args) + ["--out", ctx.work])
+    q, a, b = (os.path.join(ctx.work, f"{stem}.{e}") for e in ("q", "rust", "lean"))
+    res = {"rows": 0, "ndiff": 0, "diffs": [], "kinds": {}, "samples": [], "kv": kv, "ok": rc == 0, "out": out}
+    if rc != 0 or not os.path.exists(q):
+        res["ok"] = False
+        return res
+    drc, derr = driver(ctx, mode, q, b)
+    if drc != 0:
+        res["ok"] = False
+        res["out"] += "\nDRIVER: " + derr[-800:]
+        return res
+    rows, diffs, ndiff = diff_rows(q, a, b)
+    kinds, samples, errs = {}, [], {}
+    with open(q) as fq, open(a) as fa:
+        for i, (ql, al) in enumerate(zip(fq, fa)):
+            k = ql.split(" ", 1)[0]
+            kinds[k] = kinds.get(k, 0) + 1
+            if al.startswith("err"):
+                e = al.strip().split(" ")[0]
+                errs[e] = errs.get(e, 0) + 1
+            if i % sample_every == 3 and len(samples) < 12:
+                samples.append((ql.strip()[:160] + " => " + al.strip()[:160]))
+    res.update({"rows": rows, "ndiff": ndiff, "diffs": diffs, "kinds": kinds, "samples": samples, "errors": errs})
+    ctx.log(f"{stem}: rows={rows} diffs={ndiff}")
+    return res
